@@ -2,7 +2,8 @@
 import builtins
 import enum
 import numpy as _np
-from sxl.bits import Bit, bxor, band, bor, bnot, bite, tobit, conj, disj, CTX
+from sxl.bits import Bit, bxor, band, bor, bnot, bite, tobit, conj, disj, CTX, next_serial
+from sxl import bits as _bits
 from sxl.ints import SInt
 from sxl.sbytes import SBytes, int_from_bytes
 from sxl import explore
@@ -38,7 +39,7 @@ class _Unbound:
 
 
 UNBOUND = _Unbound()
-STATS = dict(ite=0, pred_if=0, pred_fail=0, mux=0, mux_linear=0, choice=0, sweeps=0, sweep_queries=0, calls=0)
+STATS = dict(ite=0, pred_if=0, pred_fail=0, mux=0, mux_linear=0, choice=0, sweeps=0, sweep_queries=0, calls=0, alias_forks=0, inplace_merges=0)
 GUARDS = []
 FORCE_MERGE = False
 
@@ -98,6 +99,7 @@ def _shortcircuit(thunks, is_or):
         return v if is_or else _shortcircuit(thunks[1:], is_or)
     if c is False:
         return _shortcircuit(thunks[1:], is_or) if is_or else v
+    since = _bits.SERIAL[0]
     GUARDS.append((c, not is_or))
     try:
         try:
@@ -117,7 +119,8 @@ def _shortcircuit(thunks, is_or):
         r = bor(c, _t(rest)) if is_or else band(c, _t(rest))
         return r if r.__class__ is Bit else bool(r)
     try:
-        return merge(c, v, rest) if is_or else merge(c, rest, v)
+        # v was evaluated before the guard: it counts as pre-existing unless it is immutable
+        return merge(c, v, rest, since) if is_or else merge(c, rest, v, since)
     except MergeFail:
         if GUARDS:
             raise
@@ -202,7 +205,25 @@ def _t(x):
 
 
 # ---------------------------------------------------------------------------- merging
-def merge(c, a, b):
+def serial():
+    return _bits.SERIAL[0]
+
+
+def _alias_guard(a, b, since):
+    """a merged value is a NEW object.  That is only faithful when neither operand can be referenced from elsewhere, i.e. both were
+    created inside the speculative region (creation stamp >= since): otherwise `x = <new> if c else <existing object>` followed by an
+    in-place change of x (or of the existing object through another reference) would lose the aliasing Python has.  Such merges are
+    refused (the site forks instead)."""
+    if since is None:
+        return
+    for v in (a, b):
+        ser = getattr(v, "_ser", None)
+        if ser is None or ser <= since:
+            STATS["alias_forks"] += 1
+            raise MergeFail("merging a pre-existing mutable object would break aliasing")
+
+
+def merge(c, a, b, since=None):
     if a is b:
         return a
     if a is UNBOUND or b is UNBOUND:
@@ -212,6 +233,7 @@ def merge(c, a, b):
     if ca is bitarray and cb is bitarray:
         if len(a) != len(b) or a.endian() != b.endian():
             raise MergeFail("bitarray shape")
+        _alias_guard(a, b, since)
         return a._new([bite(c, x, y) for x, y in zip(a._b, b._b)])
     if isinstance(a, (bool, Bit)) and isinstance(b, (bool, Bit)) and not (ca is int or cb is int):
         r = sweep_bit(bite(c, _t(a), _t(b)))
@@ -221,19 +243,27 @@ def merge(c, a, b):
         w = max(A.width(), B.width())
         return norm_int(SInt.from_tc([bite(c, x, y) for x, y in zip(A.tc(w), B.tc(w))]))
     if isinstance(a, (bytes, SBytes)) and isinstance(b, (bytes, SBytes)) and len(a) == len(b):
+        from sxl.sbytes import SByteArray
+        if isinstance(a, SByteArray) or isinstance(b, SByteArray):
+            _alias_guard(a, b, since)
+            return SByteArray([merge(c, x, y) for x, y in zip(list(a), list(b))])
         return SBytes([merge(c, x, y) for x, y in zip(list(a), list(b))])
     if isinstance(a, _np.ndarray) and isinstance(b, _np.ndarray):
         if a.shape != b.shape:
             raise MergeFail("ndarray shape")
+        _alias_guard(a, b, since)
         out = _np.empty(a.shape, dtype=object)
         fa, fb = _np.asarray(a, dtype=object), _np.asarray(b, dtype=object)
         for idx in _np.ndindex(a.shape):
             out[idx] = merge(c, fa[idx], fb[idx])
         return out.view(SxNd)
     if isinstance(a, list) and isinstance(b, list) and len(a) == len(b):
+        if since is not None:
+            STATS["alias_forks"] += 1
+            raise MergeFail("lists carry no creation stamp: merging could break aliasing")
         return [merge(c, x, y) for x, y in zip(a, b)]
     if isinstance(a, tuple) and isinstance(b, tuple) and len(a) == len(b):
-        return tuple(merge(c, x, y) for x, y in zip(a, b))
+        return tuple(merge(c, x, y, since) for x, y in zip(a, b))
     try:
         if a == b and type(a) is type(b):
             return a
@@ -265,6 +295,7 @@ def ite(c, ta, tb):
     if c is False:
         return tb()
     STATS["ite"] += 1
+    since = _bits.SERIAL[0]
     GUARDS.append((c, True))
     try:
         a = ta()
@@ -291,7 +322,7 @@ def ite(c, ta, tb):
         return ta() if explore.decide(c) else tb()
     GUARDS.pop()
     try:
-        return merge(c, a, b)
+        return merge(c, a, b, since)
     except MergeFail:
         return a if explore.decide(c) else b
 
@@ -303,17 +334,99 @@ def peek(thunk):
         return UNBOUND
 
 
+def peek_item(thunk):
+    """value of a subscript target (obj[i]); storing into a subscript copies the values in, so a snapshot of an ndarray row — which numpy
+    hands out as a VIEW of the live memory — has to be a copy to be a snapshot at all"""
+    v = peek(thunk)
+    if isinstance(v, _np.ndarray):
+        c = _np.array(v, dtype=v.dtype, copy=True)
+        return c.view(SxNd) if v.dtype == object else c
+    return v
+
+
+class AugSnap:
+    """pre-state of the target of an augmented assignment that may be mutated IN PLACE (bitarray +=, list +=, ...): the object itself and a
+    copy of its content.  Speculative branches mutate the real object (every alias sees it, as in Python); between and after the branches
+    its content is put back / replaced by the merged content IN PLACE, so identity and aliasing are exactly Python's."""
+    __slots__ = ("orig", "copy")
+
+    def __init__(self, orig, copy):
+        self.orig, self.copy = orig, copy
+
+
+class AugVal:
+    __slots__ = ("content",)
+
+    def __init__(self, content):
+        self.content = content
+
+
+def _mutable_container(v):
+    from bitarray import bitarray
+    from sxl.sbytes import SByteArray
+    return isinstance(v, (list, dict, set, bytearray, bitarray, SByteArray, SymArray)) or isinstance(v, _np.ndarray)
+
+
+def _set_content(obj, src):
+    """obj's content := src's content, in place"""
+    from bitarray import bitarray
+    from sxl.sbytes import SByteArray
+    if isinstance(obj, bitarray):
+        obj._b[:] = list(src._b)
+    elif isinstance(obj, SByteArray):
+        obj.o[:] = list(src.o)
+    elif isinstance(obj, SymArray):
+        obj.a[:] = list(src.a)
+    elif isinstance(obj, _np.ndarray):
+        if obj.shape != src.shape:
+            raise MergeFail("in-place content of different shape")
+        obj[...] = src
+    elif isinstance(obj, (list, bytearray)):
+        obj[:] = src
+    elif isinstance(obj, (dict, set)):
+        obj.clear()
+        obj.update(src)
+    else:
+        raise MergeFail("no in-place content for %s" % type(obj).__name__)
+
+
 def peek_copy(thunk):
     """pre-state snapshot of a target that the branch may mutate in place"""
     v = peek(thunk)
     if v is UNBOUND:
         return v
     import copy
-    from bitarray import bitarray
-    from sxl.sbytes import SByteArray
-    if isinstance(v, (list, dict, set, bytearray, bitarray, SByteArray, SymArray)) or isinstance(v, _np.ndarray):
-        return copy.copy(v)
+    if _mutable_container(v):
+        return AugSnap(v, copy.copy(v))
     return v
+
+
+def peek_after(thunk, old):
+    """value of a target after a speculative branch; an object that was mutated in place is captured by content"""
+    v = peek(thunk)
+    if old.__class__ is AugSnap and v is old.orig:
+        import copy
+        return AugVal(copy.copy(v))
+    return v
+
+
+def unsnap(old):
+    """the value to re-bind a target to when a speculative branch is undone (an in-place mutated object gets its content back)"""
+    if old.__class__ is AugSnap:
+        _set_content(old.orig, old.copy)
+        return old.orig
+    return old
+
+
+def merge_target(c, a, b, old, since, is_subscript, is_aug):
+    if a.__class__ is AugVal or b.__class__ is AugVal:
+        if a.__class__ is AugVal and b.__class__ is AugVal:
+            m = merge(c, a.content, b.content, None)
+            _set_content(old.orig, m)
+            STATS["inplace_merges"] += 1
+            return old.orig
+        raise MergeFail("one branch mutates the object in place, the other re-binds the name")
+    return merge(c, a, b, since)
 
 
 def bound(x):
@@ -775,6 +888,13 @@ builtins_any = any
 
 class SxNd(_np.ndarray):
     __array_priority__ = 100
+
+    def __array_finalize__(self, obj):
+        # creation stamp for the aliasing guard of merge(): a view (row, slice, transpose) shares its memory with `obj`, so it is as old as obj
+        if obj is not None and self.base is obj and isinstance(obj, SxNd):
+            self._ser = getattr(obj, "_ser", 0)
+        else:
+            self._ser = next_serial()
 
     # numpy's own any()/all() on an object array reduce with Python's `or`/`and`, i.e. they ask every element for its truth value one
     # after the other (one fork per symbolic element); the result as ONE symbolic condition keeps the caller's `if` mergeable
